@@ -3,7 +3,7 @@ from __future__ import annotations
 
 from functools import partial
 
-from .rules import mirror, tables, keylog, checksum, pcapng, pkn, cli, state, meta, tcp, escape, progress, tls, output, quic
+from .rules import mirror, tables, keylog, checksum, pcapng, pkn, cli, state, meta, tcp, escape, progress, tls, output, quic, kdf, frames
 
 TRUSTED = ["CPython ast parser", "the CFG / dataflow / normaliser / guard evaluator of vt/",
            "frozen reference tables under /verif/ref and in vt/rules (IANA registry copy, RFC layouts, labels)",
@@ -153,12 +153,31 @@ prop("C14",
      ["the registry copy (scapy + openssl + RFC rows) and the checker's name grammar are correct"],
      controls=["c14-sha-before-sha256"])
 
+prop("C15",
+     lambda tier: [kdf.rule_T6, kdf.rule_T7_keyblock, kdf.rule_T5_tls, quic.rule_T5_quic, kdf.rule_B4, tables.rule_T3_iv],
+     "Decides: every HKDF-Expand call site (TLS 1.3: 8, QUIC: 18 + Initial 6 + key update 6) derives the key/iv/hp of the role and epoch of the key-log label it is "
+     "guarded by, with the RFC label bytes, declared lengths and output lengths; Initial keys independent of the negotiated suite; PRF labels, seed orders per purpose "
+     "and PRF hash selection (T6); key block partitioned into consecutive gap-free slices MAC_c, MAC_s, key_c, key_s, IV_c, IV_s, by polynomial normal forms (T7k); "
+     "key-name and list-position agreement producer → consumer (T5t, T5q); argument roles at the wiring call sites of generate_keys / set_tls_decryptors and no "
+     "swapped same-named arguments anywhere (B4); implicit-IV lengths per cipher (T3b). Does not decide HMAC / HKDF arithmetic (library; unit vectors cover one point "
+     "per function).",
+     ["cryptography's HKDF / HMAC / hash implementations"], controls=["c15-swap-randoms"])
+
 prop("C16",
      lambda tier: [pkn.rule_E1, pkn.rule_D9_pkn, pkn.rule_pn_spaces, B1_for("quic.quic_session")],
      "Decides that get_full_packet_number *is* RFC 9000 A.3: the function is reduced by forward substitution to a decision tree over (largest, truncated, "
      "encoded length) and compared, in a linear/bitwise normal form, with the appendix (E1); integer-exact arithmetic (D9); per-direction tables, "
      "0-RTT/1-RTT share a space (PNS); direction arms mirror (B1). Does not decide histories (largest is updated before authentication).",
      ["the normaliser's rewrite rules (commutativity, x<<k = x*2^k, 2^e//2 = 2^(e-1))"], controls=["c16-le-to-lt"])
+
+prop("C17",
+     lambda tier: [frames.rule_T8, frames.rule_varint, progress.rule_A2, escape.rule_A1_quic_packets],
+     "Decides: registry keys are disjoint and cover RFC 9000 §19 types 0x00–0x1e and RFC 9221 0x30/0x31 with the right classes; for each of the 20 field-carrying "
+     "classes and each type-bit path a symbolic cursor walk of the constructor shows every field is read exactly at the cursor, varint length/decoding paired, byte "
+     "strings sized by their own length field (or rest of packet), and the frame length equals the end of the last field — compared with the RFC layout table (T8); "
+     "varint decoder and PADDING run shape (VARINT); every frame advances the parser by ≥ 1 byte, the ACK range loop consumes input (A2); parse faults surface as "
+     "exceptions that the per-packet handler absorbs (A1q). Trusted: the transcription of the RFC layouts in vt/rules/frames.py.",
+     ["RFC 9000 §19 / RFC 9221 §4 layout table in the checker"], controls=["c17-missing-field"])
 
 prop("C18",
      lambda tier: [state.rule_D6_reinit, state.rule_D6_nondet, state.rule_D6_paths, state.rule_D6_ownership],
